@@ -39,6 +39,14 @@ Theorem c14_excess_429 : forall c s e t a,
   (snd (allow c s t) = false -> login_step c s e t a = (s, {| status := 429; backend_called := false |})).
 Proof. intros. split; [apply login_step_429|apply login_step_refused]. Qed.
 
+(* ... and the order of the two calls in both entry points: an attempt whose lookup is performed has
+   been charged to the limiter BEFORE the lookup (what the backend would read off the limiter is the
+   bucket after this attempt's token was taken) *)
+Theorem c14_limiter_first : forall c s e t a,
+  backend_called (snd (login_step c s e t a)) = true ->
+  T (fst (login_step c s e t a)) = advance c s t - C c /\ last (fst (login_step c s e t a)) = t.
+Proof. exact limiter_first. Qed.
+
 (* both entry points, whatever the backend answers, consult the same limiter in arrival order *)
 Theorem c14_entry_points : forall c reqs s,
   map backend_called (login_run c s reqs) = decisions c s (map (fun r => snd (fst r)) reqs).
